@@ -209,6 +209,7 @@ def run(rep):
         "a line's colour / marker / dash pattern / width / marker size are read from the Line2D artist; the legend is not examined",
         "colour-coded heat maps (no palette): colour saturation must be strictly increasing in z over the figure; exact z only with a palette (QuadMesh array)",
         "histograms of inputs where every dim is mapped (nothing to bin over) and plots of entirely null data are outside the enumerated space",
+        "data refinement: for 2 cases in 3 the variables are stored with their dims in a non-identity permutation of tuple(ds.dims) (same abstract dataset, same expectation)",
         "dims have <= 3 coordinates; the same dim is never mapped to two properties; markeredgecolor / text / err= are not explored",
     ]
     seed = int(rep.seed) % 100003        # keeps the hash arithmetic of Init inside 32 bits
@@ -291,6 +292,8 @@ def run(rep):
     rep.extra["tlc_exhaustive_configs"] = [n for n, _, _ in ex_cfgs]
     rep.extra["figures"] = len(cases)
     rep.extra["by_mode"] = {m: sum(1 for c in cases if c["mode"] == m) for m in ("lines", "heat", "hist")}
+    rep.extra["cases_with_permuted_storage"] = sum(
+        1 for c in cases if ipr.storage_perm(c, len(c["sizes"])) != tuple(range(len(c["sizes"]))))
     rep.extra["ties_skipped"] = sum(1 for _, (k, _, _) in res if k == "tie")
 
 
